@@ -274,9 +274,52 @@ def translate_tables():
     }
 
 
+def translate_variants():
+    """Two structural facts of the code that the model is parameterised by (fail closed)."""
+    tree = parse_module(WF)
+    # -- _find_owning_static_tree: is the probe `Path(path) / ""` or the path itself?
+    fn = find_function(tree, "_find_owning_static_tree", cls="Workflow")
+    if args_of(fn) != ["self", "path"]:
+        raise TranslatorError("_find_owning_static_tree: signature changed")
+    consts = [c.value for c in ast.walk(fn) if isinstance(c, ast.Constant) and isinstance(c.value, str)]
+    if not any("label = substr(?, 1, length(label))" in c for c in consts):
+        raise TranslatorError("_find_owning_static_tree: the owner test is no longer label = substr(?, 1, length(label))")
+    assigns = [n for n in ast.walk(fn) if isinstance(n, ast.Assign)
+               and any(isinstance(t, ast.Name) and t.id == "path" for t in n.targets)]
+    if len(assigns) == 0:
+        appends = False
+    elif len(assigns) == 1 and ast.unparse(assigns[0]) == "path = Path(path) / ''":
+        appends = True
+    else:
+        raise TranslatorError("_find_owning_static_tree: unexpected rewriting of `path`: "
+                              + "; ".join(ast.unparse(a) for a in assigns))
+    execs = [n for n in ast.walk(fn) if isinstance(n, ast.Call) and isinstance(n.func, ast.Attribute)
+             and n.func.attr == "execute"]
+    if len(execs) != 1 or ast.unparse(execs[0].args[1]) != "(path,)":
+        raise TranslatorError("_find_owning_static_tree: the query is not executed with (path,)")
+    # -- register_nglob: recorded matches only, or the regex against every attached product?
+    fn = find_function(tree, "register_nglob", cls="Workflow")
+    src = ast.unparse(fn)
+    consts = " ".join(c.value for c in ast.walk(fn) if isinstance(c, ast.Constant) and isinstance(c.value, str))
+    calls = [ast.unparse(n.func) for n in ast.walk(fn) if isinstance(n, ast.Call)]
+    uses_path_list = "IN (SELECT path FROM path_list)" in consts
+    fullmatch = [c for c in calls if c.endswith(".fullmatch")]
+    if uses_path_list and not fullmatch and "LIMIT 1" in consts:
+        scans = False
+    elif not uses_path_list and fullmatch == ["regex.fullmatch"] and "ORDER BY node.label" in consts \
+            and "convert_nglob_to_regex(ng.pattern, ng.subs)" in src and "LIMIT" not in consts:
+        scans = True
+    else:
+        raise TranslatorError("register_nglob: product check has an unrecognised shape")
+    if "_glob_product_message(ng.pattern, step.label, path, creator_label)" not in src:
+        raise TranslatorError("register_nglob: the product message arguments changed")
+    return {"owner_appends_slash": appends, "glob_scans_products": scans}
+
+
 def generate(check_skeletons=True):
     msgs, skel = translate_messages(check_skeletons)
     tab = translate_tables()
+    var = translate_variants()
     L = ["(* GENERATED by translator/gen_claims.py from /repo -- do not edit *)",
          "From Coq Require Import List NArith.",
          "From SV Require Import lib.Bytes lib.Tmpl.",
@@ -294,6 +337,11 @@ def generate(check_skeletons=True):
              + "; ".join(f"({s}, {r})" for s, r in tab["role_by_state"]) + "].")
     L.append("Definition declarable_states : list N := [" + "; ".join(str(v) for v in tab["declarable"]) + "].")
     L.append(f"Definition stepup_dir : str := {coq_str(tab['stepup_dir'])}.")
+    L.append("(* workflow.py: _find_owning_static_tree probes Path(path) / '' (true) or path (false);"
+             " register_nglob tests the regex against every attached product (true) or looks up the recorded"
+             " matches only (false) *)")
+    L.append(f"Definition owner_appends_slash : bool := {'true' if var['owner_appends_slash'] else 'false'}.")
+    L.append(f"Definition glob_scans_products : bool := {'true' if var['glob_scans_products'] else 'false'}.")
     L.append("(* workflow.py: _FILE_ROLE_VERBS, _FILE_COLLISION_HINTS, _STEPUP_COLLISION_HINTS *)")
     L.append("Definition role_verbs : list (N * str) := [\n  "
              + ";\n  ".join(f"({k}, {coq_str(v)}) (* {v} *)" for k, v in tab["verbs"]) + "].")
@@ -323,7 +371,8 @@ def generate(check_skeletons=True):
         L.append(f"(* {doc[key]} *)")
         L.append(f"Definition {nm} : tmpl := {coq_tmpl(t)}.")
     L.append("(* skeletons: " + ", ".join(f"{k}={v}" for k, v in sorted(skel.items())) + " *)")
-    return "\n".join(L) + "\n", {"skeletons": skel, "tables": tab, "messages": {k: v for k, v in msgs.items()}}
+    return "\n".join(L) + "\n", {"skeletons": skel, "tables": tab, "variants": var,
+                                  "messages": {k: v for k, v in msgs.items()}}
 
 
 if __name__ == "__main__":
